@@ -190,13 +190,59 @@ func decNames(s string) []string {
 // Cfg is an Allocator configuration.
 type Cfg struct{ In, Out, Format string }
 
-// GoodCfgs have pairwise distinct input/output/temporary names.
+// GoodCfgs have pairwise distinct input/output/temporary names. The formats cover the modelled
+// format language: every verb, zero and space padding, text after the verb, %%.
 var GoodCfgs = []Cfg{
 	{"x", "z", "t%d"},
 	{"in", "out", "tmp%d"},
 	{"a", "b", "%d"},
 	{"t", "t_", "t%d"},
 	{"Z", "A", "_%d"},
+	{"x", "z", "t%02d"},
+	{"in", "out", "r%v"},
+	{"x", "z", "v%x"},
+	{"x", "z", "%dk"},
+	{"in", "out", "x%03b"},
+	{"x", "z", "T%X_"},
+	{"p", "q", "o%o"},
+	{"x", "z", "t%3d"},
+	{"x", "z", "%%%04x%%"},
+}
+
+// UnsupportedFormats are outside the modelled format language: both sides answer err badformat.
+var UnsupportedFormats = []string{"t", "", "t%s", "t%d%d", "%", "t%", "t%+d", "t%-3d", "t%#x", "t%65d", "t% d", "%c", "t%q",
+	"%5.2d", "%[1]d", "%*d", "t%0%d", "t%1%", "%e", "t%dx%v"}
+
+// SupportedFormat says whether a format is in the modelled language: literal bytes, %% and exactly
+// one directive % 0* [width <= 64, no leading zero] verb, verb one of d v x X o b.
+func SupportedFormat(f string) bool {
+	verbs := 0
+	for i := 0; i < len(f); i++ {
+		if f[i] != '%' {
+			continue
+		}
+		i++
+		if i < len(f) && f[i] == '%' {
+			continue
+		}
+		for i < len(f) && f[i] == '0' {
+			i++
+		}
+		w, nd := 0, 0
+		for i < len(f) && f[i] >= '0' && f[i] <= '9' {
+			w = w*10 + int(f[i]-'0')
+			nd++
+			if w > 64 {
+				return false
+			}
+			i++
+		}
+		if i >= len(f) || !strings.ContainsRune("dvxXob", rune(f[i])) {
+			return false
+		}
+		verbs++
+	}
+	return verbs == 1
 }
 
 // BadCfgs violate distinctness or non-emptiness (compared with the model, outside the oracle).
@@ -272,6 +318,9 @@ func Run(c string) string {
 	case "allocate":
 		p := Decode(f[1])
 		cfg := Cfg{string(lib.ParseBytes(f[2])), string(lib.ParseBytes(f[3])), string(lib.ParseBytes(f[4]))}
+		if !SupportedFormat(cfg.Format) {
+			return "err badformat"
+		}
 		q, temps, err := Allocate(p, cfg)
 		if err != nil {
 			return "err " + allocErrClass(err)
@@ -945,6 +994,9 @@ func CheckAllocation(c, res string, c17 bool) string {
 	f := strings.Split(c, " ")
 	p := Decode(f[1])
 	cfg := Cfg{string(lib.ParseBytes(f[2])), string(lib.ParseBytes(f[3])), string(lib.ParseBytes(f[4]))}
+	if res == "err badformat" {
+		return ""
+	}
 	if len(p) == 0 {
 		if res != "err empty" {
 			return "program without instructions must be refused, got " + res
